@@ -1,6 +1,7 @@
 package main
 
 import (
+	"fmt"
 	"regexp"
 	"bytes"
 	"math/rand"
@@ -50,6 +51,10 @@ func implCLI(env *Env, op Op) Result {
 	a := op.Args
 	var files [][]byte
 	var argv []string
+	variant := ""
+	if i := strings.Index(op.Name, "@"); i >= 0 {
+		op, variant = Op{op.Name[:i], op.Args}, op.Name[i+1:]
+	}
 	switch op.Name {
 	case "cli.formatAll":
 		files = a[2:]
@@ -91,10 +96,28 @@ func implCLI(env *Env, op Op) Result {
 	defer os.RemoveAll(sb)
 	_ = os.MkdirAll(filepath.Join(sb, "regex-assembly"), 0o755)
 	_ = os.MkdirAll(filepath.Join(sb, "tests", "regression", "tests"), 0o755)
+	store := sb + "-store"
+	if variant == "symlink" {
+		_ = os.MkdirAll(store, 0o755)
+		defer os.RemoveAll(store)
+	}
 	for i := 0; i+1 < len(files); i += 2 {
 		p := filepath.Join(sb, string(files[i]))
 		_ = os.MkdirAll(filepath.Dir(p), 0o755)
-		if err := os.WriteFile(p, files[i+1], 0o644); err != nil {
+		var err error
+		switch variant {
+		case "symlink":
+			// every file is a symbolic link to a file kept outside the tree (a sandboxed checkout): a file is a file
+			target := filepath.Join(store, fmt.Sprintf("f%d.data", i/2))
+			if err = os.WriteFile(target, files[i+1], 0o644); err == nil {
+				err = os.Symlink(target, p)
+			}
+		case "readonly":
+			err = os.WriteFile(p, files[i+1], 0o444)
+		default:
+			err = os.WriteFile(p, files[i+1], 0o644)
+		}
+		if err != nil {
 			return Result{Status: "harness-error", Note: err.Error()}
 		}
 	}
@@ -186,6 +209,16 @@ func genCliTreeCases(r *rand.Rand, n int) []Case {
 			ops = append(ops, Op{"cli.renumberAll", append([][]byte{[]byte(chk)}, files...)})
 		}
 		ops = append(ops, Op{"cli.copyrightAll", append([][]byte{[]byte(pick(r, []string{"4.5.0", "v4.6.0-rc1", "4.7.0+build"})), []byte("2031")}, files...)})
+		if i%3 == 1 {
+			// the same tree with every file behind a symbolic link (a sandboxed checkout), and with read-only files: what a
+			// command does to a file does not depend on how the file is stored
+			v := []string{"@symlink", "@readonly"}[(i/3)%2]
+			for k := range ops {
+				ops[k] = Op{ops[k].Name + v, ops[k].Args}
+			}
+			cases = append(cases, Case{Kind: "tree:all-commands" + v, Ops: ops})
+			continue
+		}
 		cases = append(cases, Case{Kind: "tree:all-commands", Ops: ops})
 	}
 	return cases
